@@ -470,7 +470,7 @@ func c03Getters(p *packet.Packet, m *ref.Packet, tol bool, saw *bool) *hx.Failur
 		want := base*300 + uint64(ext)
 		// a field that became present without a value holds whatever bytes were there: an extension above 299 is no clock
 		// value (what the getter reports for it is not stated), and the six reserved bits are not value bits
-		if err != nil || (v != want && ext <= 299) {
+		if ext <= 299 && (err != nil || v != want) {
 			return hx.Failf("getter-"+g.name, "%s method = (%d, %v), want %d", g.name, v, err, want)
 		}
 		sameValueBits := len(fb) == 6 && len(*g.h) == 6 && bytes.Equal(fb[:4], (*g.h)[:4]) && fb[4]|0x7E == (*g.h)[4]|0x7E && fb[5] == (*g.h)[5]
@@ -572,6 +572,9 @@ func checkC03(c CaseC03, x *hx.Ctx) *hx.Failure {
 	var nSize, nRefused, nRemoveNonEmpty, nRepeat, nExact, nCopy int
 	knownGetter := false
 	_, tol := hx.IsKnown("C03", "af-method-getter-length-prefixed")
+	// clock fields that are present but never received a value (they became present by a presence toggle): their bytes
+	// are not a value anybody set, and an implementation may rewrite them whenever it re-encodes the field
+	unsetClock := map[string]bool{}
 	for i, o := range c.Ops {
 		hist = append(hist, o.String())
 		before := p
@@ -655,6 +658,35 @@ func checkC03(c CaseC03, x *hx.Ctx) *hx.Failure {
 				m.AF.Splice = &s
 			}
 			_ = eb
+		}
+		// a clock field that never received a value may hold bytes that are no clock value at all (extension above 299, what
+		// stuffing leaves behind) or have its reserved bits cleared: its contents stay undefined, and an implementation that
+		// re-encodes fields (when copying an adaptation field, say) may normalise them at any time - take them from the packet again
+		if err == nil {
+			switch o.Kind {
+			case "hasPCR":
+				unsetClock["pcr"] = undefined == "pcr" || (o.B && unsetClock["pcr"])
+			case "hasOPCR":
+				unsetClock["opcr"] = undefined == "opcr" || (o.B && unsetClock["opcr"])
+			case "pcr":
+				unsetClock["pcr"] = false
+			case "opcr":
+				unsetClock["opcr"] = false
+			case "copyAF":
+				unsetClock["pcr"], unsetClock["opcr"] = false, false // generated sources carry real clock values
+			}
+		}
+		if m.AF != nil {
+			off := 6
+			for k, h := range []*ref.Hex{m.AF.PCR, m.AF.OPCR} {
+				if h == nil {
+					continue
+				}
+				if _, ext := ref.DecodePCR(*h); (ext > 299 || unsetClock[[]string{"pcr", "opcr"}[k]]) && off+6 <= 5+m.AF.Len {
+					copy(*h, p[off:off+6])
+				}
+				off += 6
+			}
 		}
 		eb := m.MustBytes()
 		if [188]byte(p) != eb {
